@@ -254,6 +254,7 @@ Scenario generate(const std::string& prop, uint64_t seed, const std::string& tie
     sc.upper = r.chance(0.7) ? (sc.isPeriodic() ? 1 : 2) : long(r.below(uint64_t(sc.height + 1)));
     if (prop == "C12") sc.upper = long(r.below(uint64_t(sc.height + 1)));
     if (numeric) sc.upper = 2;   // the shipped floating-point kernels hold operators for the default working levels only
+    if (sc.upper == 2 && r.chance(0.5)) sc.upperDefault = true;   // TbfDefaultLastLevel through the constructors' default argument
     sc.threadsCtor = 1 + int(r.below(16));
     sc.threadsExec = sc.threadsCtor;
     sc.ctorWithKernel = r.chance(0.4);
@@ -266,7 +267,7 @@ Scenario generate(const std::string& prop, uint64_t seed, const std::string& tie
         // the documented periodic sequence: bottom-to-top, top tree, transfer, top-to-bottom
         sc.topLevels = int(r.below(5)) - 1;
         if (forceTop) sc.topLevels = atoi(forceTop);
-        sc.upper = 1;
+        sc.upper = 1; sc.upperDefault = false;
         HistOp a = full, t, b = full, c = full;
         a.flags = F_P2M | F_M2M; t.op = "top"; t.flags = F_ALL; b.flags = F_M2L | F_P2P; c.flags = F_L2L | F_L2P;
         sc.history = {a, t, b, c};
